@@ -29,7 +29,7 @@ TWO_PI = 2 * math.pi
 #     different linear system stopped at a different residual; C09 measures 8e-4 between permutations]   -> 5e-4
 #   T-matrix [1.3e-6: ampld nudges every angle by EPS=1e-7 towards pi/2 resp. pi, deterministically]   -> 5e-5
 # a sign / index / argument mutation changes results by >= 1e-2.
-TOL = {"mie": 1e-8, "mie_far": 1e-9, "mie_rad": 1e-9, "layered": 1e-8, "mie_sup": 1e-8, "mielens": 1e-9,
+TOL = {"mie": 1e-8, "mie_far": 1e-9, "mie_rad": 1e-9, "layered": 1e-8, "mie_sup": 1e-8, "auto_border": 1e-8, "mielens": 1e-9,
        "amielens": 1e-9, "multi": 5e-4, "tmatrix": 5e-5, "lens": 1e-8, "lens_grid": 1e-9, "lens_uneq": 1e-8,
        # lens wrapper around non-axisymmetric scatterers, rotations by exact multiples of the azimuthal node spacing:
        # limited by the inner solver's own covariance [measured 2e-5 / 3e-7]
@@ -65,6 +65,8 @@ def build_theory(t):
     from holopy.scattering.theory import Lens
     from holopy.scattering.theory.mielens import AberratedMieLens
     k = t["kind"]
+    if k == "auto_border":
+        return "auto"          # the documented default-theory rule decides (Mie superposition beyond 30 radii)
     if k in ("mie", "mie_sup", "layered"):
         return Mie()
     if k == "mie_far":
@@ -322,7 +324,7 @@ def gen_points(rng, centre, rmin, rmax, npts, z=0.0):
 
 
 THEORY_KINDS = ["mie", "mie_far", "mie_rad", "layered", "mie_sup", "multi", "mielens", "amielens", "lens", "lens_grid",
-                "lens_uneq", "tmatrix", "lens_multi", "lens_tm"]
+                "lens_uneq", "tmatrix", "lens_multi", "lens_tm", "auto_border"]
 
 
 def gen_case(rng, tkind, opkind):
@@ -352,7 +354,19 @@ def gen_case(rng, tkind, opkind):
         # as lens_grid: few nodes, only the exact symmetries of the node set are asked for
         n = rng.choice([12, 16]) if opkind == "mir_x" else rng.choice([10, 12, 16])
         theory.update(lens_angle=u(rng, 0.4, 1.0), ntheta=rng.choice([8, 12]), nphi=n)
-    if tkind in ("mie_sup", "multi", "lens_multi"):
+    if tkind == "auto_border":
+        # theory='auto' on a pair of spheres a little MORE than 30 radii apart, along a diagonal of the x-y plane: the rule
+        # (largest centre-to-centre distance against 30 radii, a rotation invariant) chooses the Mie superposition in every
+        # orientation; a per-coordinate or bounding-box version of the test changes its mind when the pair is turned
+        r = u(rng, 0.08, 0.15)
+        d = r * u(rng, 31.0, 40.0)
+        a0 = math.pi / 4 + u(rng, -0.1, 0.1)
+        c0 = [u(rng, -0.5, 0.5), u(rng, -0.5, 0.5), z]
+        scat = dict(kind="spheres", members=[dict(n=u(rng, 1.45, 1.65), r=r, center=c0),
+                                             dict(n=u(rng, 1.45, 1.65), r=r * u(rng, 0.8, 1.0),
+                                                  center=[c0[0] + d * math.cos(a0), c0[1] + d * math.sin(a0), z + u(rng, -0.2, 0.2)])])
+        centre = [sum(m["center"][i] for m in scat["members"]) / 2 for i in range(3)]
+    elif tkind in ("mie_sup", "multi", "lens_multi"):
         scat = gen_cluster(rng, z, mi, nmax=3 if tkind != "mie_sup" else 4)
         if tkind == "lens_multi" and len(scat["members"]) < 2:
             scat = gen_cluster(rng, z, mi, nmax=3)
